@@ -131,6 +131,45 @@ def gen_value(rng, ctr):
     return itok(-ctr)
 
 
+EQ_SPECIALS = ["f0000000000000000", "f8000000000000000", "i0", "i1", "f3ff0000000000000", "fbff0000000000000", "i-1",
+               "f7ff8000000000001", "n", "b0", "b1", "s-", "s30", "f43e0000000000000", "i7fffffffffffffff",
+               "fc3e0000000000000", "i-8000000000000000", "f4340000000000000", "i20000000000000", "f4340000000000001",
+               "i20000000000002", "f7ff0000000000000", "fff0000000000000", "f3fe0000000000000", "t1", "t2", "g1", "c1.0"]
+
+
+def eq_twin(rng, tok, alias):
+    """another spelling of a value that should (or deliberately should not) be the same key"""
+    n = tok_to_int(tok)
+    if tok[0] == "i" and n is not None:
+        if n == 0:
+            return rng.choice(["f0000000000000000", "f8000000000000000", "i0"])
+        if abs(n) <= 2 ** 53 or rng.chance(1, 2):
+            x = float(n)
+            return ftok(x)            # exact below 2^53; above it the float may denote a neighbouring integer
+    if tok[0] == "f" and n is not None:
+        if n == 0:
+            return rng.choice(["f0000000000000000", "f8000000000000000", "i0"])
+        return itok(n)
+    if tok[0] == "c" and alias:
+        p, c = tok[1:].split(".")
+        return "c%x.%s" % (1 + (int(p, 16) % 4), c)
+    return tok
+
+
+def gen_eq_op(rng, pool, alias):
+    a = rng.choice(pool) if rng.chance(2, 3) else rng.choice(EQ_SPECIALS)
+    c = rng.below(10)
+    if c < 4:
+        b = eq_twin(rng, a, alias)
+    elif c < 7:
+        b = rng.choice(pool)
+    else:
+        b = rng.choice(EQ_SPECIALS)
+    if rng.chance(1, 2):
+        a, b = b, a
+    return "E %s %s" % (a, b)
+
+
 def gen_history(rng, alias=False):
     """a history: list of op strings"""
     c = rng.below(100)
@@ -178,9 +217,11 @@ def gen_history(rng, alias=False):
             else:
                 ops.append("S %s %s" % (k, v))
                 live.add(k)
-        elif c < 80:
+        elif c < 76:
             k = rng.choice(pool) if rng.chance(3, 4) else rng.choice(extra + ["n", "f7ff8000000000001"])
             ops.append("G %s" % k)
+        elif c < 80:
+            ops.append(gen_eq_op(rng, pool + extra, alias))
         elif c < 88:
             k = rng.choice(pool + ["n"]) if rng.chance(5, 6) else rng.choice(extra)
             ops.append("N %s" % k)
@@ -198,6 +239,12 @@ def gen_history(rng, alias=False):
             ops[-1] = "W 7 0 5 0 %x" % (2 * n + 20)                  # a = 5 every step: no action
     ops.append("W 7 0 5 0 %x" % (2 * n + 20))
     ops.append("L")
+    # value equality against key identity: a few pairs in every history, the two zeros regularly
+    for _ in range(3):
+        ops.append(gen_eq_op(rng, pool + extra, alias))
+    if rng.chance(1, 3):
+        z = ["f0000000000000000", "f8000000000000000", "i0"]
+        ops.append("E %s %s" % (rng.choice(z), rng.choice(z)))
     return ops
 
 
@@ -258,7 +305,7 @@ def to_sops(ops, gout):
     for op, (res, _) in zip(ops, gout):
         f = op.split()
         start = len(sops)
-        if f[0] in ("S", "R", "G", "L"):
+        if f[0] in ("S", "R", "G", "L", "E"):
             sops.append(op)
         elif f[0] == "N":
             r = res.split(",")
@@ -278,6 +325,23 @@ def to_sops(ops, gout):
                         sops.append("S %s %s" % (k, itok(fresh + j)))
         plan.append((start, len(sops) - start))
     return sops, plan
+
+
+def eq_failures(a, b, raweq, eqop, same, s_raweq, s_same, what):
+    """value equality against table-key identity for one pair (all arguments '0'/'1', same may be '-' when a is nil/NaN):
+    the property itself (raw-equal <=> same entry), then each observation against the manual's definitions (S)"""
+    out = []
+    if same != "-" and raweq != same:
+        out.append("value equality and table-key identity disagree for (%s, %s): %s is %s but t[a]=true; t[b]~=nil is %s"
+                   % (a, b, what, raweq == "1", same == "1"))
+    if eqop != raweq:
+        out.append("== and rawequal disagree for (%s, %s) although no __eq metamethod is involved: == %s, rawequal %s"
+                   % (a, b, eqop == "1", raweq == "1"))
+    if raweq != s_raweq:
+        out.append("%s(%s, %s) is %s, the manual's equality says %s" % (what, a, b, raweq == "1", s_raweq == "1"))
+    if same != "-" and same != s_same:
+        out.append("(%s, %s) denote the same entry: implementation %s, abstract map %s" % (a, b, same == "1", s_same == "1"))
+    return out
 
 
 def check_s(ops, gout, sres, plan):
@@ -305,6 +369,8 @@ def check_s(ops, gout, sres, plan):
         elif f[0] == "L":
             if res not in s[0].split(","):
                 fails.append((i, "Len returned %s, borders are {%s}" % (res, s[0])))
+        elif f[0] == "E":
+            fails += [(i, d) for d in eq_failures(f[1], f[2], res[2], res[2], res[3], s[0][0], s[0][1], "rawequal")]
         elif f[0] == "N":
             r = res.split(",")
             v, present = s[0].split(",")
@@ -519,7 +585,15 @@ def lua_val(tok):
     if tok[0] == "s":
         b = b"" if tok == "s-" else bytes.fromhex(tok[1:])
         return '"' + "".join("\\x%02x" % c for c in b) + '"'
+    if tok[0] == "t":
+        return "T[%d]" % (1 + (int(tok[1:], 16) - 1) % 3)
+    if tok[0] == "c":
+        return "C[%d]" % LUA_CLOSURES[tok]
     raise ValueError(tok)
+
+
+LUA_CLOSURES = {"c1.0": 1, "c2.0": 2, "c3.1": 3}       # C[1], C[2]: same prototype, no upvalues; C[3]: another prototype
+LUA_TABLES = ["t1", "t2", "t3"]
 
 
 def canon_to_tok(c):
@@ -532,6 +606,12 @@ def canon_to_tok(c):
 LUA_PRELUDE = """local t = setmetatable({}, {
   __newindex = function(t, k, v) emit("nidx", k); rawset(t, k, v) end,
   __index = function(t, k) emit("idx", k); return nil end })
+local function id(x) return x end            -- operands reach == / rawequal at run time, never the constant folder
+local T = {{}, {}, {}}
+local function mkA() return function() end end
+local function mkB() return function() return 1 end end
+local C = {mkA(), mkA(), mkB()}
+local function samekey(a, b) if a == nil or a ~= a then return nil end local tt = {}; tt[a] = true; return tt[b] ~= nil end
 """
 
 
@@ -549,6 +629,8 @@ def lua_render(ops):
             out.append("do local v = t[%s]; emit('I', v) end" % lua_val(f[1]))
         elif f[0] == "L":
             out.append("emit('L', #t)")
+        elif f[0] == "Q":
+            out.append("do local a, b = id(%s), id(%s); emit('Q', rawequal(a, b), a == b, samekey(a, b)) end" % (lua_val(f[1]), lua_val(f[2])))
         elif f[0] == "W":
             m, p, q, fresh, cap = walk_params(op)
             out.append("do local j = 0; local ok, err = pcall(function() for k, v in pairs(t) do emit('v', k, v); "
@@ -579,14 +661,30 @@ def gen_lua_history(rng):
             ops.append("G %s" % k)
         elif c < 84:
             ops.append("I %s" % k)
-        elif c < 92:
+        elif c < 89:
             ops.append("L")
+        elif c < 93:
+            ops.append(gen_lua_eq_op(rng, pool))
         else:
             m = rng.choice([1, 2, 3, 4, 100])
             ops.append("W %x %x %x %x %x" % (m, rng.below(m + 1), rng.below(4), 100000 * (1 + len(ops)), 2 * len(pool) + 20))
     ops.append("W 7 0 5 0 %x" % (2 * len(pool) + 20))
     ops.append("L")
+    for _ in range(3):
+        ops.append(gen_lua_eq_op(rng, pool))
+    if rng.chance(1, 2):
+        z = ["f0000000000000000", "f8000000000000000", "i0"]
+        ops.append("Q %s %s" % (rng.choice(z), rng.choice(z)))
     return ops
+
+
+def gen_lua_eq_op(rng, pool):
+    ok = lambda k: k[0] in "ifsbn" or k in LUA_CLOSURES or k in LUA_TABLES
+    cand = [k for k in pool + EQ_SPECIALS + list(LUA_CLOSURES) + LUA_TABLES if ok(k)]
+    while True:
+        f = gen_eq_op(rng, cand, True).split()
+        if ok(f[1]) and ok(f[2]):
+            return "Q %s %s" % (f[1], f[2])
 
 
 def check_lua(ops, events, status):
@@ -636,6 +734,14 @@ def check_lua(ops, events, status):
                 break
             sops.append(op)
             expect.append(("index", oi, (canon_to_tok(e[1]) if len(e) > 1 else "n", consulted)))
+        elif f[0] == "Q":
+            e = take()
+            if e is None or e[0] != "s" + b"Q".hex() or len(e) < 4:
+                fails.append((oi, "event stream out of step at %s" % op))
+                break
+            bit = lambda c: {"b1": "1", "b0": "0"}.get(c, "-")
+            sops.append("E %s %s" % (f[1], f[2]))
+            expect.append(("eq", oi, (f[1], f[2], bit(e[1]), bit(e[2]), bit(e[3]))))
         elif f[0] == "L":
             e = take()
             if e is None or e[0] != "s" + b"L".hex():
@@ -692,6 +798,9 @@ def lua_compare(expect, sres):
                 fails.append((oi, "__index %s although the raw key is %s" % ("consulted" if pay[1] else "not consulted", "absent" if c == "b1" else "present")))
             elif not pay[1] and v != pay[0]:
                 fails.append((oi, "t[k] returned %s, map has %s" % (pay[0], v)))
+        elif kind == "eq":
+            a, b, raweq, eqop, same = pay
+            fails += [(oi, d) for d in eq_failures(a, b, raweq, eqop, same, r[0], r[1], "rawequal")]
         elif kind == "len":
             if pay not in r.split(","):
                 fails.append((oi, "# returned %s, borders are {%s}" % (pay, r)))
@@ -794,6 +903,8 @@ def evaluate(ck, eng, hists, label, first_violation_only=True, max_report=3):
         for o in ops:
             ck.count("op:" + o[0])
             f = o.split()
+            if f[0] == "E":
+                ck.count("eq-pair:" + "/".join(sorted(("float-int" if x[0] == "f" and tok_to_int(x) is not None else x[0]) for x in f[1:3])))
             if len(f) > 1 and f[0] in "SRGN":
                 ck.count("key:" + ("int" if f[1][0] == "i" else "float-int" if f[1][0] == "f" and tok_to_int(f[1]) is not None
                                    else "float" if f[1][0] == "f" else {"s": "string", "b": "bool", "t": "table", "g": "gofunc",
